@@ -14,6 +14,13 @@ Interval = constants.Interval
 Point = constants.Point
 
 
+# a fourth operand whose entries lie late in the span (so that a second look at a tier starts further right than the first)
+LATE = {"I": ("I", "late", 0.0, 4.0, ((2.5, 3.5, "w"),)), "P": ("P", "late", 0.0, 4.0, ((3.0, "w"),))}
+SEEDS3 = [("I", "t", 0.0, 4.0, ((0.0, 1.0, "a"), (2.0, 3.0, "b"), (3.0, 4.0, "c"))),
+          ("I", "t", 0.0, 4.0, ((0.0, 1.0, "a"), (1.0, 2.0, "b"), (3.0, 4.0, "c"))),
+          ("P", "t", 0.0, 4.0, ((0.0, "x"), (2.0, "y"), (3.0, "z")))]
+
+
 # ------------------------------------------------------------------ tiers
 def tier_primers(t, others):
     """operations that do not change the observable state but may prime hidden state; each is (name, thunk)"""
@@ -28,6 +35,8 @@ def tier_primers(t, others):
         ("eq", lambda: t == others[0]),
         ("new", lambda: t.new()),
         ("crop", lambda: t.crop(0.5, 2.0, "truncated", False)),
+        ("crop-late", lambda: t.crop(2.5, 3.5, "lax", False)),
+        ("intersection-late", lambda: t.intersection(others[3]) if isI else None),
         ("as-dejitter-reference", lambda: others[0].dejitter(t, 0.3)),
         ("dejitter", lambda: t.dejitter(others[0], 0.3)),
         ("as-union-argument", lambda: others[0].union(t)),
@@ -61,24 +70,21 @@ def tier_mutations(t, vals):
     return M
 
 
-def observe_tier(t, others):
+def observe_tier(t, others, reverse=False):
     """a battery of observations of a tier, as receiver and as argument"""
     isI = t.tierType == constants.INTERVAL_TIER
-    out = [("canon", canon(t))]
+    thunks = []
 
     def ob(name, f):
-        st, r, _ = call(f)
-        if st == "exc":
-            out.append((name, "raised:" + type(r).__name__))
-        elif hasattr(r, "entries"):
-            out.append((name, canon(r)))
-        else:
-            out.append((name, repr(r)))
+        thunks.append((name, f))
     ob("timestamps", lambda: t.timestamps)
     ob("find", lambda: t.find("a"))
     ob("validate", lambda: t.validate("silence"))
     ob("len", lambda: len(t))
     ob("crop", lambda: t.crop(0.5, 2.0, "truncated", True))
+    ob("crop-late", lambda: t.crop(2.5, 3.5, "lax", False))
+    ob("crop-wide", lambda: t.crop(1.5, 4.0, "truncated", False))
+    ob("erase-late", lambda: t.eraseRegion(2.5, 3.5, "truncate", False))
     ob("as-dejitter-reference", lambda: others[0].dejitter(t, 0.3))
     ob("as-dejitter-reference2", lambda: others[1].dejitter(t, 0.6))
     ob("dejitter", lambda: t.dejitter(others[1], 0.3))
@@ -95,8 +101,20 @@ def observe_tier(t, others):
         ob("difference", lambda: t.difference(others[0]))
         ob("as-difference-argument", lambda: others[0].difference(t))
         ob("intersection", lambda: t.intersection(others[1]))
+        ob("intersection-late", lambda: t.intersection(others[3]))
+        ob("as-mergeLabels-argument", lambda: others[3].mergeLabels(t))
         ob("mergeLabels", lambda: t.mergeLabels(others[0]))
         ob("morph", lambda: t.morph(others[0]))
+    # an observation may itself refresh hidden state, so the battery is run in both orders (on separate live objects)
+    out = {"canon": canon(t)}
+    for name, f in (reversed(thunks) if reverse else thunks):
+        st, r, _ = call(f)
+        if st == "exc":
+            out[name] = "raised:" + type(r).__name__
+        elif hasattr(r, "entries"):
+            out[name] = canon(r)
+        else:
+            out[name] = repr(r)
     return out
 
 
@@ -104,49 +122,54 @@ def check_tier_history(case, others_states, vals):
     """case = (state, primer-index or -1, mutation-index or -1, primer2-index or -1):
     prime, mutate, prime again on ONE live tier; then the live tier must observe like a fresh copy of itself."""
     state, p1, m, p2 = case
-    t = mk(state)
-    others = [mk(s) for s in others_states[state[0]]]
-    trace = []
-    n = 0
-    if p1 >= 0:
-        name, f = tier_primers(t, others)[p1]
-        call(f)
-        trace.append(name)
-        n += 1
-    if m >= 0:
-        muts = tier_mutations(t, vals)
-        if m >= len(muts):
-            return 0, "skip", None, []
-        name, f = muts[m]
-        call(f)
-        trace.append(name)
-        n += 1
-    if p2 >= 0:
-        name, f = tier_primers(t, others)[p2]
-        call(f)
-        trace.append(name)
-        n += 1
-    live = observe_tier(t, others)
-    c = canon(t)
-    try:
-        fresh_t = mk(c)
-    except Exception as e:  # the live tier is not even constructible from its own fields: reported by C05
-        return n, "unconstructible", None, []
-    fresh = observe_tier(fresh_t, [mk(s) for s in others_states[state[0]]])
     viols = []
-    for (k1, v1), (k2, v2) in zip(live, fresh):
-        if v1 != v2:
-            viols.append(Viol("history-dependent:" + k1,
-                              f"after {trace} on one live tier built from {state}, observation {k1!r} is {v1} but a fresh tier with the "
-                              f"same name, span and entries {c} gives {v2}: behaviour depends on hidden state"))
+    n = 0
+    nobs = 0
+    for reverse in (False, True):
+        t = mk(state)
+        others = [mk(s) for s in others_states[state[0]]] + [mk(LATE[state[0]])]
+        trace = []
+        if p1 >= 0:
+            name, f = tier_primers(t, others)[p1]
+            call(f)
+            trace.append(name)
+            n += 1
+        if m >= 0:
+            muts = tier_mutations(t, vals)
+            if m >= len(muts):
+                return 0, "skip", None, []
+            name, f = muts[m]
+            call(f)
+            trace.append(name)
+            n += 1
+        if p2 >= 0:
+            name, f = tier_primers(t, others)[p2]
+            call(f)
+            trace.append(name)
+            n += 1
+        c = canon(t)
+        try:
+            fresh_t = mk(c)
+        except Exception:  # the live tier is not even constructible from its own fields: reported by C05
+            return n, "unconstructible", None, []
+        live = observe_tier(t, others, reverse)
+        fresh = observe_tier(fresh_t, [mk(s) for s in others_states[state[0]]] + [mk(LATE[state[0]])], reverse)
+        nobs += len(live)
+        for k1 in live:
+            if live[k1] != fresh.get(k1):
+                viols.append(Viol("history-dependent:" + k1,
+                                  f"after {trace} on one live tier built from {state}, observation {k1!r} is {live[k1]} but a fresh tier with the "
+                                  f"same name, span and entries {c} gives {fresh.get(k1)}: behaviour depends on hidden state"))
+                break
+        if viols:
             break
-    return n + len(live), "ok", (state[0], p1, m >= 0, p2), viols
+    return n + nobs, "ok", (state[0], p1, m >= 0, p2), viols
 
 
 def tier_history_cases(seeds, others_states, vals, with_second_primer=False):
-    for state in seeds:
+    for state in list(seeds) + SEEDS3:
         t = mk(state)
-        others = [mk(s) for s in others_states[state[0]]]
+        others = [mk(s) for s in others_states[state[0]]] + [mk(LATE[state[0]])]
         nP = len(tier_primers(t, others))
         nM = len(tier_mutations(t, vals))
         for p1 in range(-1, nP):
